@@ -114,6 +114,12 @@ func dateLayoutLanguagesG(e *Env, rule string, guardPasses bool, extra ...string
 		switch {
 		case as == "len(input)" && bs == "0":
 			return 1, true, true // non-empty input
+		case dateLimitOn && as == "*date.MaxInputLength" && bs == "0":
+			return 1, true, true // limit raised: set, and the text within it
+		case dateLimitOn && as == "len(input)" && bs == "*date.MaxInputLength":
+			return -1, true, true
+		case dateLimitOn && as == "*date.MaxInputLength" && bs == "len(input)":
+			return 1, true, true
 		case as == "*date.MaxInputLength" && bs == "0":
 			return 0, true, true // limit disabled: the guard is C18.L's business
 		case as == "len(input)" && bs == "*date.MaxInputLength":
@@ -484,18 +490,29 @@ func ruleC09Sem(e *Env) {
 	for _, vr := range []struct {
 		name, layout string
 		ruleSet      bool
+		limitOn      bool
 	}{
-		{"", "0000-00-00", false},
-		{" (basic)", "00000000", false},
-		{" (9-digit year)", "000000000-00-00", false},
-		{" (9-digit year, basic)", "0000000000000", false},
-		{" (RuleDisableBasic)", "0000-00-00", true},
-		{" (9-digit year, RuleDisableBasic)", "000000000-00-00", true},
-		{" (basic, RuleDisableBasic)", "00000000", true},
+		{"", "0000-00-00", false, false},
+		{" (basic)", "00000000", false, false},
+		{" (9-digit year)", "000000000-00-00", false, false},
+		{" (9-digit year, basic)", "0000000000000", false, false},
+		{" (RuleDisableBasic)", "0000-00-00", true, false},
+		{" (9-digit year, RuleDisableBasic)", "000000000-00-00", true, false},
+		{" (basic, RuleDisableBasic)", "00000000", true, false},
+		// the limit raised instead of disabled: set, the text within it — what lies behind `MaxInputLength != 0 && …`
+		{" (limit raised)", "0000-00-00", false, true},
+		{" (9-digit year, limit raised)", "000000000-00-00", false, true},
+		{" (9-digit year, basic, limit raised)", "0000000000000", false, true},
 	} {
+		dateLimitOn = vr.limitOn
 		ruleC09SemOn(e, dp, sums, vr.name, vr.layout, vr.ruleSet, basicBit)
 	}
+	dateLimitOn = false
 }
+
+// dateLimitOn selects the world the date parser's tables are extracted in: false — MaxInputLength is 0 (disabled);
+// true — it is set and the text lies within it.
+var dateLimitOn bool
 
 func ruleC09SemOn(e *Env, dp *ssa.Function, sums map[string]pred.Summary, vname, layout string, ruleSet bool, basicBit int64) {
 	site := flow.FnName(dp)
@@ -504,6 +521,12 @@ func ruleC09SemOn(e *Env, dp *ssa.Function, sums map[string]pred.Summary, vname,
 		as, bs := a.String(), b.String()
 		c, isC := b.(pred.Const)
 		switch {
+		case dateLimitOn && as == "*date.MaxInputLength" && bs == "0":
+			return 1, true, true
+		case dateLimitOn && as == "len(input)" && bs == "*date.MaxInputLength":
+			return -1, true, true
+		case dateLimitOn && as == "*date.MaxInputLength" && bs == "len(input)":
+			return 1, true, true
 		case as == "*date.MaxInputLength" && bs == "0":
 			return 0, true, true
 		case as == "len(input)" && bs == "*date.MaxInputLength":
